@@ -422,6 +422,10 @@ func registerIntrinsics(m *Machine) {
 		}
 		return out
 	}
+	// Clone copies through unsafe.String; strings are immutable values here
+	I["internal/stringslite.Clone"] = func(m *Machine, fr *frame, a []Value) Value { return a[0] }
+	I["strings.Clone"] = func(m *Machine, fr *frame, a []Value) Value { return a[0] }
+	I["strconv.cloneString"] = func(m *Machine, fr *frame, a []Value) Value { return a[0] }
 	I["internal/stringslite.Index"] = indexStr
 	I["internal/stringslite.IndexByte"] = indexByte
 
